@@ -5,7 +5,7 @@ from ..core import rule
 from ..flow import Flow
 from ..idioms import match_ceildiv
 from ..linear import Defs, Lin, Poly
-from ..srcmodel import AnalysisError, call_name, get_arg, norm, own_nodes, param_names, short
+from ..srcmodel import str_template, AnalysisError, call_name, get_arg, norm, own_nodes, param_names, short
 
 # oracle: numpy dtype name -> (C type, bytes, signed, float)
 CTYPE = {
@@ -122,7 +122,7 @@ def k1(cx):
     # K2 ndarray
     c = kinds["ndarray"]
     ty, ptr = c.args
-    cx.check(norm(ty) in ("dtype2ctype(value.dtype) + '*'",), c, construct=f"cast({norm(ty)}, ...)", detail="pointer type derives from the array's own dtype, so cffi refuses arrays of another element type",
+    cx.check(str_template(ty) == (("expr", "dtype2ctype(value.dtype)"), ("lit", "*")), c, construct=f"cast({norm(ty)}, ...)", detail="pointer type derives from the array's own dtype, so cffi refuses arrays of another element type",
              bad_detail="ndarray pointer type does not derive from value.dtype: an array of the wrong element type would be reinterpreted silently", sub="ndarray.type")
     fb = ptr
     ok = False
@@ -145,7 +145,7 @@ def k1(cx):
     c = kinds["xoarray"]
     ty, ptr = c.args
     tytxt = norm(ty)
-    cx.check(tytxt in ("value._itemtype._c_type + '*'", "dtype2ctype(value._itemtype._dtype) + '*'"), c, construct=f"cast({tytxt}, ...)",
+    cx.check(str_template(ty) in ((("expr", "value._itemtype._c_type"), ("lit", "*")), (("expr", "dtype2ctype(value._itemtype._dtype)"), ("lit", "*"))), c, construct=f"cast({tytxt}, ...)",
              detail="pointer type derives from the array's item type (cffi then refuses a wrong element type)",
              bad_detail=("`value._c_type` is the array typedef name, not an element type: cffi rejects it (undefined type)" if tytxt.startswith("value._c_type") else "pointer type does not derive from the array's own item type: a wrong element type would pass silently"), sub="xoarray.type")
     ok = False
@@ -237,14 +237,33 @@ def k4(cx):
     ffa = m.func("context_cpu::KernelCpu.from_function_arg")
     r = [x for x in own_nodes(ffa) if isinstance(x, ast.Return)]
     cx.check(len(r) == 1 and norm(r[0].value) == param_names(ffa)[2], r[0] if r else ffa, construct="from_function_arg returns its value", detail="identity", bad_detail="from_function_arg alters the returned value", sub="return")
-    # cffi signature
+    # cffi signature: evaluated (the current cdef_from_kernel / Arg.get_c_type on abstract kernels), not matched
+    from ..peval import Builtin, Interp, Obj
+
+    I = Interp(m)
+
+    def mkarg(t):
+        return Obj("arg", {"get_c_type": Builtin("get_c_type", lambda: t)})
+
+    cases = [("double", ["T1", "T2*", "int64_t"], "double kfun(T1,T2*,int64_t);"), (None, ["T1"], "void kfun(T1);"), (None, [], "void kfun();")]
     cd = m.func("context_cpu::cdef_from_kernel")
-    src = norm(cd)
-    ok = "kernel.ret.get_c_type()" in src and "','.join((arg.get_c_type() for arg in kernel.args))" in src and "'void'" in src
-    cx.check(ok, cd, construct="cdef: <ret.get_c_type()|void> name(<arg.get_c_type() for arg in kernel.args>)", detail="signature built from the declaration, in declared order", bad_detail="cffi signature is not built from ret/args get_c_type() in declaration order", sub="cdef")
+    for ret, args, want in cases:
+        k = Obj("kernel", {"c_name": "kfun", "ret": mkarg(ret) if ret else None, "args": [mkarg(t) for t in args]})
+        res = I.explore(lambda: I.call(I.global_lookup("context_cpu", "cdef_from_kernel"), [k], {}), max_paths=4)
+        cx.need(len(res) == 1 and res[0]["exc"] is None, f"cdef_from_kernel cannot be evaluated: {res[0]['exc'].msg if res[0]['exc'] else res[0]['conds']}")
+        got = res[0]["result"]
+        cx.check(isinstance(got, str) and "".join(got.split()) == "".join(want.split()), cd, construct=f"cdef_from_kernel(ret={ret}, args={args}) = {got!r}", detail="signature = <ret type | void> name(<argument types in declared order>);",
+                 bad_detail=f"cffi signature is {got!r}, expected {want!r}: arguments would be delivered in another order / with another type", sub="cdef")
+    k = Obj("kernel", {"c_name": None, "ret": None, "args": []})
+    res = I.explore(lambda: I.call(I.global_lookup("context_cpu", "cdef_from_kernel"), [k, "pyk"], {}), max_paths=4)
+    cx.check(res[0]["exc"] is None and "".join(str(res[0]["result"]).split()) == "voidpyk();", cd, construct=f"cdef_from_kernel(c_name=None, pyname='pyk') = {res[0]['result']!r}", detail="python name used when no C name is declared", bad_detail="the kernel's python name is not used as C name when c_name is None", sub="cdef")
     gt = m.func("context::Arg.get_c_type")
-    src = norm(gt)
-    cx.check("self.atype._c_type" in src and "if self.pointer" in src and "'*'" in src, gt, construct="Arg.get_c_type = atype._c_type + ('*' if pointer)", detail="pointer arguments are declared as pointers", bad_detail="Arg.get_c_type does not append '*' exactly for pointer arguments", sub="cdef")
+    Arg = I.global_lookup("context", "Arg")
+    at = Obj("atype", {"_c_type": "double"})
+    for ptr, want in ((False, "double"), (True, "double*")):
+        res = I.explore(lambda: I.call(I.getattr(I.call(Arg, [at], {"pointer": ptr}), "get_c_type"), [], {}), max_paths=4)
+        cx.need(len(res) == 1 and res[0]["exc"] is None, f"Arg.get_c_type cannot be evaluated: {res[0]['exc'].msg if res[0]['exc'] else res[0]['conds']}")
+        cx.check("".join(str(res[0]["result"]).split()) == want, gt, construct=f"Arg(atype, pointer={ptr}).get_c_type() = {res[0]['result']!r}", detail="'*' appended exactly for pointer arguments", bad_detail=f"declared C type is {res[0]['result']!r}, expected {want!r}", sub="cdef")
 
 
 @rule("K6", ["C16"], "launch geometry: CUDA grid = ceil(n/block) blocks of block_size, OpenCL global size n; n resolved from the named argument")
